@@ -93,8 +93,22 @@ def run(ctx):
     total = len(cand)
     budget = 40 if quick else 600
     if len(cand) > budget:
-        rng.shuffle(cand)
-        cand = cand[:budget]
+        # stratified: group the density calls by which frozen fields an earlier trace differs in
+        # (the situations in which a stale graph could be reused) so that each kind is replayed
+        groups = {}
+        for e in cand:
+            st = nodes[e[0]]
+            key = (tuple(stale_fields(st)), bool(st["m"]["notFull"]), tuple(f["kind"] for f in st["stack"]))
+            groups.setdefault(key, []).append(e)
+        keys = sorted(groups, key=lambda k: (-len(k[0]), repr(k)))
+        for k in keys:
+            rng.shuffle(groups[k])
+        picked = []
+        while len(picked) < budget and any(groups[k] for k in keys):
+            for k in keys:
+                if groups[k] and len(picked) < budget:
+                    picked.append(groups[k].pop())
+        cand = picked
     t0 = time.time()
     ncalls = 0
     ncompiled = 0
